@@ -204,6 +204,7 @@ int64_t cmb_resource_acquire(struct cmb_resource *rp)
 {
     /* Waiting since now, also if it takes several rounds at the guard */
     const double waiting_since = cmb_time();
+    uint64_t arrival = 0u;
 
     cmb_assert_release(rp != NULL);
 
@@ -224,7 +225,8 @@ int64_t cmb_resource_acquire(struct cmb_resource *rp)
         const int64_t ret = cmi_resourceguard_wait_since(&(rp->guard),
                                                          is_available,
                                                          NULL,
-                                                         waiting_since);
+                                                         waiting_since,
+                                                         &arrival);
 
         /*
          * Now we got past the front door, or perhaps thrown out by the guard.
